@@ -1,6 +1,8 @@
 """C16 - waveform dumps replay the simulation exactly."""
 import keyword
 import os
+import shutil
+import tempfile
 import traceback
 
 from vlib import specgen as G, simmon as M, vcdparse
@@ -24,7 +26,7 @@ def plan(tier, seed):
 
 
 def thresholds(tier):
-  t = {"designs": 150, "signal_cycle_comparisons": 20000, "shared_symbols": 50, "textwave_comparisons": 10000, "change_records_parsed": 5000, "designs_with_inputs_echoing_tied_constants": 30, "big_designs": 1, "ifc_designs": 60}
+  t = {"designs": 150, "signal_cycle_comparisons": 20000, "shared_symbols": 50, "textwave_comparisons": 10000, "change_records_parsed": 5000, "designs_with_inputs_echoing_tied_constants": 30, "big_designs": 1, "ifc_designs": 60, "openloop_designs": 40}
   if tier == "thorough":
     t = {k: v * 15 for k, v in t.items()}
     t["big_designs"] = 1                      # one per run (shard 0)
@@ -360,7 +362,106 @@ def run_ifc_case(sh, case):
     except OSError: pass
 
 
+OPENLOOP_SRC = """
+from pymtl3 import *
+@bitstruct
+class OPair:
+  hi: Bits4
+  lo: Bits4
+class OLTop(Component):
+  # driven through method ports (open-loop simulation): push(v) feeds a register chain, pull() reads combinational logic
+  def construct(s, depth):
+    s.pending = None
+    s.inw = Wire(Bits8); s.w = Wire(Bits8); s.p = Wire(OPair)
+    s.r = [Wire(Bits8) for _ in range(depth)]
+    @update
+    def up_in():
+      if s.pending is not None:
+        s.inw @= s.pending
+        s.pending = None
+      else:
+        s.inw @= 0
+    @update_ff
+    def ff():
+      s.r[0] <<= s.inw
+      for i in range(1, depth):
+        s.r[i] <<= s.r[i - 1]
+      s.p <<= OPair(s.r[0][4:8], s.r[0][0:4])
+    @update
+    def up_w():
+      s.w @= s.r[depth - 1] + 1
+    s.add_constraints( M(s.push) < U(up_in), U(up_w) < M(s.pull) )
+  @method_port
+  def push(s, v):
+    s.pending = v
+  @method_port
+  def pull(s):
+    return s.w
+  def line_trace(s):
+    return ""
+"""
+
+
+def run_openloop_case(sh, case):
+  """the open-loop pass group (GenDAGPass + OpenLoopCLPass: the design is advanced by calling its method ports) with the VCD dump
+  and the text wave on: every cycle's record holds the values of THAT cycle's clock edge - registers before they flip, combinational
+  signals settled - as computed by a plain model of the register chain from the pushed values"""
+  from pymtl3.passes.autotick.OpenLoopCLPass import OpenLoopCLPass
+  from pymtl3.passes.sim.GenDAGPass import GenDAGPass
+  from pymtl3.passes.tracing.VcdGenerationPass import VcdGenerationPass
+  from pymtl3.passes.tracing.PrintTextWavePass import PrintTextWavePass
+  rng = sh.rng("openloop", case)
+  depth = rng.randrange(1, 4)
+  mod = G.load_source(OPENLOOP_SRC, "c16ol")
+  d = tempfile.mkdtemp(prefix="c16ol-", dir=os.environ.get("VERIF_SCRATCH") or None)
+  try:
+    top = mod.OLTop(depth); top.elaborate()
+    fname = os.path.join(d, "dump")
+    top.set_metadata(VcdGenerationPass.vcd_file_name, fname)
+    top.set_metadata(PrintTextWavePass.enable, True)
+    top.apply(GenDAGPass()); top.apply(OpenLoopCLPass(print_line_trace=False))
+    stim = [rng.choice([0, 255, rng.getrandbits(8)]) for _ in range(rng.randrange(6, 20))]
+    for v in stim:
+      top.push(v); top.pull()
+    top.push(0)          # completes the last cycle
+    n = len(stim)
+    exp = {"s.inw": list(stim), "s.w": [], "s.p": []}
+    regs = [[0] * n for _ in range(depth)]
+    for k in range(n):
+      for i in range(depth):
+        regs[i][k] = 0 if k == 0 else (stim[k - 1] if i == 0 else regs[i - 1][k - 1])
+    for i in range(depth): exp[f"s.r[{i}]"] = regs[i]
+    exp["s.w"] = [(regs[depth - 1][k] + 1) & 255 for k in range(n)]
+    exp["s.p"] = [0 if k == 0 else regs[0][k - 1] for k in range(n)]
+    vars_, changes = vcdparse.parse(open(fname + ".vcd").read())
+    byname = {name: sym for scope, name, width, sym in vars_ if scope == ("top",)}
+    tw = top.get_metadata(PrintTextWavePass.textwave_dict)
+    for pth, vals in exp.items():
+      vn = mangle(pth[2:])
+      if vn not in byname:
+        sh.violation("signal-has-no-$var", {"signal": pth, "declared": sorted(byname)[:12], "stream": "open-loop"}, case=("openloop", case)); return
+      ser = changes.get(byname[vn], [])
+      for k in range(n):
+        sh.count("openloop_signal_cycle_comparisons")
+        got = vcdparse.value_at(ser, 100 * k)
+        if got != vals[k]:
+          sh.violation("vcd-value-differs-from-simulator-value-at-the-clock-edge", {"signal": pth, "cycle": k, "vcd": got, "model": vals[k], "pushed": stim[:k + 1],
+                       "stream": "open-loop pass group", "register_chain_depth": depth}, case=("openloop", case)); return
+        if pth in tw and k < len(tw[pth]) and int(tw[pth][k][2:], 2) != vals[k]:
+          sh.violation("textwave-value-differs-from-simulator-value", {"signal": pth, "cycle": k, "textwave": tw[pth][k], "model": vals[k],
+                       "stream": "open-loop pass group"}, case=("openloop", case)); return
+      if pth not in tw:
+        sh.violation("textwave-misses-signals", {"missing": [pth], "stream": "open-loop"}, case=("openloop", case)); return
+    sh.count("openloop_designs"); sh.fp(("openloop", depth, tuple(stim[:4])))
+  except Exception as e:
+    sh.inconclusive("openloop-harness:" + type(e).__name__)
+  finally:
+    G.unload(mod); shutil.rmtree(d, ignore_errors=True)
+
+
 def run_shard(sh):
+  for case in range(3 if sh.tier == "quick" else 30):
+    run_openloop_case(sh, sh.idx * 100 + case)
   if sh.idx == 0:
     run_big_case(sh)
   for case in range(sh.params["designs"] // 2):
